@@ -81,7 +81,16 @@ def rule_wrap(ctx):
                     ovy = [u for u in others if u[0].endswith('.vy')]
                     rest = [u for u in others if not (u[0].endswith('.y') or u[0].endswith('.vy'))]
                     sgn = '+=' if L['op'] == '>' else '-='
-                    off = 'offsetp1' if L['op'] == '>' else 'offsetm1'
+                    # the two azimuthal offsets are the locals defined through fmod(-+ 3/2 OMEGA Lx t ...): names are free
+                    offs = {}
+                    for d_ in walk(fn):
+                        if d_.get('kind') == 'VarDecl' and 'init' in d_:
+                            ini_ = [c_ for c_ in d_.get('inner', []) if c_.get('kind') not in ('FullComment',)]
+                            txt_ = render(ini_[-1]).replace(' ', '').replace('(', '') if ini_ else ''
+                            if 'fmod' in txt_ and 'OMEGA' in txt_:
+                                offs['>' if txt_.split('fmod', 1)[1].startswith('-') else '<'] = d_['name']
+                    anchor(set(offs) == {'>', '<'}, 'the two shear offsets (locals defined with fmod of -+ 3/2 OMEGA boxsize.x t) in reb_boundary_check')
+                    off = offs[L['op']]
                     if len(oy) != 1 or oy[0][1] != '+=' or oy[0][2] != off:
                         ctx.report('R15.1', key + ':shear-y', where, 'radial wrap must shift y by %s; found %s' % (off, oy))
                     if len(ovy) != 1 or ovy[0][1] != sgn or 'OMEGA*boxsize.x' not in ovy[0][2].replace('(', '').replace(')', '') or '3' not in ovy[0][2]:
